@@ -591,11 +591,14 @@ def make_jail(env, troot):
     return scan_tree(troot)
 
 
-def run_jailed(env, troot, argv, timeout=10.0, cwd='/'):
+def run_jailed(env, troot, argv, timeout=10.0, cwd='/', streams=None):
+    """streams: {'stdout'|'stderr': 'full'|'epipe'|'closed'} - the stream is /dev/full (every write fails), a pipe without reader, or not
+    open at all (the Rust runtime then opens /dev/null for it and aborts where that does not exist: not used inside the jail)"""
     env.runs += 1
     e = {'HOME': '/L/home', 'XDG_CONFIG_HOME': '/L/home/.config', 'LC_ALL': 'C.UTF-8', 'TZ': 'UTC',
          'NO_COLOR': '1', 'RUST_BACKTRACE': '0', 'PATH': '/L'}
     cmd = ['/L/ld.so', '--library-path', '/L', '/L/fselect'] + list(argv)
+    streams = streams or {}
 
     def pre():
         _limits()
@@ -607,18 +610,31 @@ def run_jailed(env, troot, argv, timeout=10.0, cwd='/'):
             os.rmdir(g)
         else:
             os.chdir(cwd)
-    p = subprocess.Popen(cmd, env=e, stdin=subprocess.DEVNULL, stdout=subprocess.PIPE,
-                         stderr=subprocess.PIPE, preexec_fn=pre, start_new_session=True)
+        for fd, name in ((1, 'stdout'), (2, 'stderr')):
+            if streams.get(name) == 'closed':
+                os.close(fd)
+    full = open('/dev/full', 'wb') if 'full' in streams.values() else None
+    broken = None
+    if 'epipe' in streams.values():       # a pipe whose reader has gone: every write fails with EPIPE
+        r_, w_ = os.pipe()
+        os.close(r_)
+        broken = os.fdopen(w_, 'wb')
+    fds = {name: (full if streams.get(name) == 'full' else broken if streams.get(name) == 'epipe' else subprocess.PIPE) for name in ('stdout', 'stderr')}
+    p = subprocess.Popen(cmd, env=e, stdin=subprocess.DEVNULL, stdout=fds['stdout'],
+                         stderr=fds['stderr'], preexec_fn=pre, start_new_session=True)
+    for f_ in (full, broken):
+        if f_:
+            f_.close()
     try:
         out, err = p.communicate(timeout=timeout)
-        return Obs(p.returncode, out, err)
+        return Obs(p.returncode, out or b'', err or b'')
     except subprocess.TimeoutExpired:
         try:
             os.killpg(p.pid, signal.SIGKILL)
         except OSError:
             pass
         out, err = p.communicate()
-        return Obs(-9, out, err, timeout=True)
+        return Obs(-9, out or b'', err or b'', timeout=True)
 
 
 # --------------------------------------------------------------------------- batch transport (hook)
